@@ -7,6 +7,7 @@ package sched
 
 import (
 	"context"
+	"encoding/json"
 	"fmt"
 	"hash/fnv"
 	"net"
@@ -100,6 +101,8 @@ type Sim struct {
 	OrderDraws  int
 	// Anomalies are harness-level consistency problems (never violations)
 	Anomalies []string
+	// TraceFile, when set, receives every trace line at once (replay mode)
+	TraceFile *os.File
 }
 
 func New(t *tape.Tape) *Sim {
@@ -397,6 +400,22 @@ func (s *Sim) note(line string) {
 	s.traceHash = h.Sum64()
 	if len(s.Trace) < s.TraceCap {
 		s.Trace = append(s.Trace, line)
+	}
+	if s.TraceFile != nil {
+		// written before the action is performed: survives the death of the process
+		s.TraceFile.WriteString(line + "\n")
+	}
+}
+
+// Describe records a description of the workload of this run in the trace file (crash replays
+// have no result to carry it).
+func (s *Sim) Describe(v any) {
+	if s.TraceFile == nil {
+		return
+	}
+	b, err := json.Marshal(v)
+	if err == nil {
+		s.TraceFile.WriteString("DESCRIBE " + string(b) + "\n")
 	}
 }
 
